@@ -140,6 +140,18 @@ CLAIMED = {
     note='Oracle for the time series is a separate run() (differential), which C03 binds to Solver.tla; linear integer models, Euler.',
     technique='TLA+ grid/label spec (TLC), replay through grid_search with exact comparison against separate runs',
     ref='6/C17'),
+
+ 'C20': dict(
+    text='spec/Guards.tla: MustRaise / MustWarn (layer M) over the request record [backend, call, solver, vectorize, delay kind, '
+         'sparse, defect] and the guard sequence of the code as a pc-level state machine (layer P); TLC checks NoUnsupportedReturn and '
+         'NoSilentDrop over the full finite matrix and that dropping a guard (three deviations) violates them. Every request of the '
+         'matrix (default/torch/jax exhaustively, Fortran cells that decide before compilation plus a few compiled ones; all in thorough) '
+         'and every malformed variant of a valid model (reserved name, undeclared variable, value for a missing operator incl. via all/, '
+         'missing edge endpoints, missing outputs, two outputs, cyclic operator graph, inputs / updates / node values addressed to '
+         'missing targets) is executed; outcome returned / raised / warned compared with MustRaise / MustWarn.',
+    note='Exhaustive over the modelled matrix; a raise where none is required is recorded as drift only; julia/matlab not installed.',
+    technique='TLA+ guard state machine (TLC exhaustive over the support matrix), execution of every request on the real code',
+    ref='6/C20'),
 }
 
 NOT_YET = 'check not built yet in this round (planned in DESIGN.md section 6); not claimed'
